@@ -242,6 +242,17 @@ func runC19(r *ev.Run) {
 						}
 					}
 				}
+				// the same list with spare capacity (built with append, or itself the result of an earlier cut)
+				roomy := append(make([]comet.VectorResult, 0, len(out)+5), out...)
+				if lr := comet.LimitResults(roomy, k); len(lr) != want {
+					fail("limit.length-with-spare-capacity", fmt.Sprintf("LimitResults(len %d cap %d, k=%d) returned %d", len(roomy), cap(roomy), k, len(lr)))
+				}
+				if len(out) > 1 {
+					cutOnce := comet.LimitResults(out, len(out)-1)
+					if lr := comet.LimitResults(cutOnce, k); len(lr) > len(cutOnce) {
+						fail("limit.length-with-spare-capacity", fmt.Sprintf("LimitResults of an already limited list (len %d) with k=%d returned %d", len(cutOnce), k, len(lr)))
+					}
+				}
 				if comet.VerifSanitizeK(k, len(out)) != want {
 					fail("sanitizek", fmt.Sprintf("sanitizeK(%d,%d)=%d", k, len(out), comet.VerifSanitizeK(k, len(out))))
 				}
